@@ -322,6 +322,56 @@ class G:
                    ("unknown_method", mut(13, "kk%d.nomethod(%s)" % (n, self.e("int"))), (13, 13), ""),
                    ("wrong_init", mut(14, "kv%d: str = kk%d.fetch()" % (n, n)), (14, 14), "str <- method result int")])
 
+    def t_opassign_fit(self):
+        """`x op= y` must yield a value that still fits x: one mutant per operator and target kind"""
+        n = self.uid()
+        ops = ["+=", "-=", "*=", "/=", "%="]
+        o = [self.r.choice(ops) for _ in range(4)]
+        base = ["oa%d: int = 7" % n, "ol%d: [int...] = [8, 2]" % n, 'op%d = Pt(9, "q")' % n, "ob%d = 0b11" % n,
+                "oa%d %s 2" % (n, o[0]), "ol%d[0] %s 2" % (n, o[1]), "op%d.x %s 2" % (n, o[2]), "ob%d %s 0b1" % (n, o[3])]
+        muts = []
+
+        def mut(i, line, note):
+            m = list(base)
+            m[i] = line
+            muts.append(("opassign_result_unfit", m, (i, i), note))
+        for op in ops:
+            mut(4, "oa%d %s 2.5" % (n, op), "int %s float" % op)
+            mut(4, "oa%d %s B3" % (n, op), "int %s bigint" % op)
+            mut(5, "ol%d[0] %s 2.5" % (n, op), "list element int %s float" % op)
+            mut(6, "op%d.x %s 2.5" % (n, op), "field int %s float" % op)
+            mut(7, "ob%d %s 1" % (n, op), "byte %s int" % op)
+        mut(5, "ol%d[0] %s B2" % (n, self.r.choice(ops)), "list element int op= bigint")
+        mut(6, "op%d.x %s B2" % (n, self.r.choice(ops)), "field int op= bigint")
+        return St("opassign_fit", base, muts)
+
+    RET_SHAPES = [
+        ("while_body", ["  while a > 0 {", "    return a", "  }"]),
+        ("from_body", ["  from 0 to 3, i {", "    return i", "  }"]),
+        ("if_without_else", ["  if a > 0 {", "    return a", "  }"]),
+        ("else_only", ["  if a > 0 {", "    w = 1", "  } else {", "    return a", "  }"]),
+        ("then_only", ["  if a > 0 {", "    return a", "  } else {", "    w = 1", "  }"]),
+        ("else_if_gap", ["  if a > 5 {", "    return a", "  } else if a > 2 {", "    w = 1", "  } else {", "    return 2", "  }"]),
+        ("while_in_if", ["  if a > 0 {", "    while a > 1 {", "      return a", "    }", "  } else {", "    return a", "  }"]),
+        ("if_else_in_while", ["  while a > 0 {", "    if a > 1 {", "      return a", "    } else {", "      return 1", "    }", "  }"]),
+        ("from_in_else", ["  if a > 0 {", "    return 1", "  } else {", "    from 0 to 2, j {", "      return j", "    }", "  }"]),
+    ]
+
+    def t_fn_ret_shapes(self):
+        """the all-paths-return analysis: the only guaranteed return is the final one; the mutant drops it"""
+        n = self.uid()
+        base, spans = [], []
+        for k, (name, body) in enumerate(self.RET_SHAPES):
+            start = len(base)
+            base += ["h%ds%d = fn(a: int) -> int {" % (n, k)] + body + ["  return %s" % self.r.choice(["0", "a", "(a + 1)"]), "}"]
+            spans.append((name, start, len(base) - 1))
+            base.append("u%ds%d = h%ds%d(%s)" % (n, k, n, k, self.r.choice(["1", "3", "7"])))
+        muts = []
+        for name, lo, hi in spans:
+            m = base[:hi - 1] + base[hi:]          # drop the final `return`
+            muts.append(("missing_return", m, (lo, hi - 1), "only return inside %s" % name))
+        return St("fn_return_shapes", base, muts)
+
     def t_lib(self):
         n = self.uid()
         w, t2 = self.wrong("int")
@@ -333,7 +383,7 @@ class G:
 
     TEMPLATES = ["t_decl_annot", "t_decl_alias", "t_decl_optional", "t_reassign", "t_call1", "t_call2", "t_mcall", "t_field",
                  "t_fn_ret", "t_fn_void", "t_cond_if", "t_cond_while", "t_cond_elseif", "t_index_list", "t_index_map", "t_binop",
-                 "t_unary", "t_map_value", "t_list_elem", "t_class_def"]
+                 "t_unary", "t_map_value", "t_list_elem", "t_class_def", "t_opassign_fit", "t_fn_ret_shapes"]
     CONTEXTS = ["top", "function", "closure", "method", "constructor", "if", "else_if", "else", "while", "from"]
 
     # ---------------------------------------------------------------- contexts
@@ -496,10 +546,21 @@ def cargs(terms):
 class N:
     """a statement node: text and term, with nested blocks and single-fault alternatives"""
 
-    def __init__(self, head, term, blocks=(), seps=(), tail=(), faults=(), loop=False):
+    def __init__(self, head, term, blocks=(), seps=(), tail=(), faults=(), loop=False, kind=None):
         self.head, self.term, self.blocks, self.seps, self.tail = list(head), term, list(blocks), list(seps), list(tail)
         self.faults = list(faults)
         self.loop = loop
+        self.kind = kind
+
+
+def core_returns(block):
+    """Reject/Typing.v returns_b on the generator's nodes"""
+    for node in block:
+        if node.kind == "ret":
+            return True
+        if node.kind == "if" and len(node.blocks) == 2 and core_returns(node.blocks[0]) and core_returns(node.blocks[1]):
+            return True
+    return False
 
 
 def core_render(block, ind, target=None, repl=None, out=None, span=None):
@@ -654,6 +715,12 @@ class Core:
         t2 = self.r.choice([t for t in TYPES if t != ty])
         return self.expr(t2, env, 1), t2
 
+    def ret_node(self, ty, env):
+        e = self.expr(ty, env, 1)
+        w, t2 = self.wrong(ty, env)
+        return N(["return %s" % e[0]], "(SReturn (Some %s))" % e[1], kind="ret",
+                 faults=[("wrong_return", N(["return %s" % w[0]], "(SReturn (Some %s))" % w[1], kind="ret"))])
+
     def block(self, env, rc, depth, infn):
         """rc: None (module level) | ("ret", ty|None).  Returns list of N; env is extended in place for the caller"""
         r = self.r
@@ -718,17 +785,25 @@ class Core:
             e1, e2 = list(env), list(env)
             tb = self.block(e1, rc, depth + 1, infn)
             eb = self.block(e2, rc, depth + 1, infn) if r.random() < 0.5 else []
+            if rc and rc[1] and r.random() < 0.4:
+                tb = tb + [self.ret_node(rc[1], e1)]             # an early return inside the branch
+                if eb and r.random() < 0.5:
+                    eb = eb + [self.ret_node(rc[1], e2)]
+            elif rc and rc[1] and eb and r.random() < 0.2:
+                eb = eb + [self.ret_node(rc[1], e2)]
             seps = ["} else {"] if eb else []
             blocks = [tb, eb] if eb else [tb]
             term = "(SIf %s {0} {1})" if eb else "(SIf %s {0} BNil)"
-            return N(["if %s {" % c[0]], term % c[1], blocks, seps, ["}"],
-                     faults=[("non_bool_condition", N(["if %s {" % w[0]], term % w[1], blocks, seps, ["}"])),
-                             (bk, N(["if %s {" % bt], term % bc, blocks, seps, ["}"]))])
+            return N(["if %s {" % c[0]], term % c[1], blocks, seps, ["}"], kind="if",
+                     faults=[("non_bool_condition", N(["if %s {" % w[0]], term % w[1], blocks, seps, ["}"], kind="if")),
+                             (bk, N(["if %s {" % bt], term % bc, blocks, seps, ["}"], kind="if"))])
         if k < 0.74 and depth < 2:
             c = self.expr("bool", env)
             w, t2 = self.wrong("bool", env)
             e1 = list(env)
             b = self.block(e1, rc, depth + 1, infn)
+            if rc and rc[1] and r.random() < 0.4:
+                b = b + [self.ret_node(rc[1], e1)]               # a while body that returns never makes the function return
             return N(["while %s {" % c[0]], "(SWhile %s {0})" % c[1], [b], [], ["}"], loop=True,
                      faults=[("non_bool_condition", N(["while %s {" % w[0]], "(SWhile %s {0})" % w[1], [b], [], ["}"], loop=True))])
         if k < 0.90 and depth < 2:
@@ -751,11 +826,13 @@ class Core:
                 e = self.expr(ret, benv)
                 w, t2 = self.wrong(ret, benv)
                 bk, bt, bc = self.bad_expr(benv)
-                retn = N(["return %s" % e[0]], "(SReturn (Some %s))" % e[1],
-                         faults=[("wrong_return", N(["return %s" % w[0]], "(SReturn (Some %s))" % w[1])),
+                retn = N(["return %s" % e[0]], "(SReturn (Some %s))" % e[1], kind="ret",
+                         faults=[("wrong_return", N(["return %s" % w[0]], "(SReturn (Some %s))" % w[1], kind="ret")),
                                  ("missing_return_value", N(["return "], "(SReturn None)")),
-                                 (bk, N(["return %s" % bt], "(SReturn (Some %s))" % bc))])
-                faults.append(("missing_return", N([head], term, [list(body)], [], ["}"])))
+                                 (bk, N(["return %s" % bt], "(SReturn (Some %s))" % bc, kind="ret"))])
+                if not core_returns(body):
+                    # dropping the final return is a fault only if no other statement returns on every path
+                    faults.append(("missing_return", N([head], term, [list(body)], [], ["}"])))
                 body = body + [retn]
             else:
                 # (a bare `return` in a void function is rejected by the compiler -- reported separately -- so the
